@@ -124,3 +124,30 @@ def cbrt_mod(a: int, p: int):
     root = pow(a, e, p) * pow(g, -(j * m), p) % p
     assert pow(root, 3, p) == a
     return root
+
+
+def cube_roots_of_unity(p: int):
+    """The two primitive cube roots of unity modulo a prime p = 1 (mod 3) (roots of x^2 + x + 1), else []."""
+    if p % 3 != 1:
+        return []
+    s = sqrt_mod((-3) % p, p)
+    if s is None:
+        return []
+    h = inv_mod(2, p)
+    out = sorted({(-1 + s) * h % p, (-1 - s) * h % p})
+    assert all((w * w + w + 1) % p == 0 for w in out)
+    return out
+
+
+def endo_scalars(n: int):
+    """Scalars related to the eigenvalues lambda of the order-3 automorphism (x, y) -> (beta x, y) of a j = 0 curve
+    whose group order is the prime n: lambda, lambda +- 1, 2(lambda + 1), 1 - lambda, ... A double-and-add ladder
+    over such a scalar adds two distinct points that share their y (or have opposite y) coordinate."""
+    out = []
+    for lam in cube_roots_of_unity(n):
+        for v in (lam, lam + 1, lam - 1, 2 * (lam + 1), 2 * (lam + 1) + 1, 1 - lam, 2 * (1 - lam), 2 * (1 - lam) + 1,
+                  -lam, -lam - 1, 2 * lam + 1, 2 * lam - 1, 3 * lam, (lam + 1) * 4, lam + n, lam + 1 + n):
+            out.append(v % n)
+            out.append(v % n - n)
+            out.append(v % n + n)
+    return sorted(set(out))
